@@ -124,12 +124,20 @@ thread_local! {
 }
 
 pub fn push_queue(message: WorkerResponse) {
+    // verification hook: symbolic-execution harnesses never reach the thread-local
+    #[cfg(sozu_verif)]
+    return drop(message);
+    #[cfg(not(sozu_verif))]
     QUEUE.with(|queue| {
         (*queue.borrow_mut()).push_back(message);
     });
 }
 
 pub fn push_event(event: Event) {
+    // verification hook: symbolic-execution harnesses never reach the thread-local
+    #[cfg(sozu_verif)]
+    return drop(event);
+    #[cfg(not(sozu_verif))]
     QUEUE.with(|queue| {
         (*queue.borrow_mut()).push_back(WorkerResponse {
             id: "EVENT".to_string(),
